@@ -105,6 +105,19 @@ func (p *EnhancedPass) PosToLocation(pos token.Pos) token.Position {
 	return p.HumanReadablePosition(p.Fset.Position(pos))
 }
 
+// CallSiteLocation returns the location that identifies the given call expression among the calls of
+// its package: the location of the identifier naming the callee (`f` in `f(x)`, `m` in `x.m(y)` and
+// `(x.m)(y)`), or the location of the opening parenthesis if the callee is not named. It is the
+// location stored in the call-site-specific annotation sites, so everything that creates or looks up
+// such a site must obtain the location here. Note that `call.Pos()` does not identify a call: it is
+// the position of the leftmost operand, which all the calls of a chain `x.m(a).m(b)` share.
+func (p *EnhancedPass) CallSiteLocation(call *ast.CallExpr) token.Position {
+	if ident := asthelper.FuncIdentFromCallExpr(call); ident != nil {
+		return p.PosToLocation(ident.Pos())
+	}
+	return p.PosToLocation(call.Lparen)
+}
+
 // ExprBarsNilness returns if the expression can never be nil for the simple reason that nil does
 // not inhabit its type.
 func (p *EnhancedPass) ExprBarsNilness(expr ast.Expr) bool {
